@@ -39,6 +39,16 @@ def gen_cases(rng, tier, drift):
         cfg["shuffle"] = cfg["kind"] == "map" and cfg["n"] > 0 and rng.random() < 0.4
         cfg["gseed"] = rng.randint(0, 999)
         cases.append(dict(kind="free", cfg=cfg, in_order=rng.random() < 0.7, epochs=rng.choice([1, 2, 3])))
+    for i in range(2 if tier == "quick" and not drift else 8):
+        # a quiet stretch longer than the 5 s liveness poll while another worker has already (cleanly) retired:
+        # the poll must not mistake the retired worker for a crashed one and cut the epoch short
+        W = rng.choice([2, 3])
+        sizes = [rng.randint(0, 1) for _ in range(W)]
+        slow_w = rng.randrange(W)
+        sizes[slow_w] = rng.randint(3, 4)
+        cfg = dict(kind="iter", W=W, P=rng.choice([1, 2]), I=rng.choice([0, 1]), bs=1, drop=False, persistent=False, sizes=sizes,
+                   stateful=False, rewind=False, eager=False, slow=[slow_w, rng.randint(1, 2), 6.0])
+        cases.append(dict(kind="free", cfg=cfg, in_order=True, epochs=1))
     for i in range(n_f // 2):
         # persistent workers across epochs, some epochs abandoned part-way (break): every later epoch must again be complete
         cfg = si.gen_cfg(rng, maxW=3)
